@@ -81,6 +81,7 @@ const (
 	feGrpc
 	feZapio
 	fePanicRecovered
+	fePanicMarshal
 	nFrontEnds
 )
 
@@ -266,6 +267,15 @@ func c04do(tl *taskLogger, c *c04call) {
 		default:
 			tl.grpc.Error(msg, "|", c.pad)
 		}
+	case fePanicMarshal:
+		// a field marshaler with a bug: it panics half-way through encoding and
+		// the application recovers. No line for this call (the reference run
+		// does the same); the lines of everybody else are untouched by what the
+		// abandoned call had borrowed from the pools.
+		func() {
+			defer func() { _ = recover() }()
+			tl.l.Log(c.lvl, msg, append(fields, zap.Namespace("ns"), zap.Object("boom", c8panicObj{}))...)
+		}()
 	case fePanicRecovered:
 		// an entry above Error whose terminal action the application survives:
 		// a Panic-level entry (or DPanic, which does not panic outside
@@ -481,6 +491,8 @@ func runC04(c *Ctx) {
 			call.msg = fmt.Sprintf("t%d.s%d:", t, s)
 			tk.calls = append(tk.calls, call)
 			switch {
+			case call.front == fePanicMarshal:
+				r.Probe("log call abandoned by a panicking marshaler, recovered")
 			case call.front == fePanicRecovered:
 				r.Probe("Panic/DPanic entry recovered by the task")
 			case call.front == feCheck && s%3 == 2:
